@@ -58,6 +58,11 @@ pub struct Scenario {
     /// paths that are symbolic links on the disk: link (a key of `files`) -> where the bytes live
     #[serde(default)]
     pub symlinks: BTreeMap<String, String>,
+    /// files a user has put into the standard include directory next to the shipped ones
+    /// (name -> text); with envmode "home-extra" the tool and the reference see a private copy
+    /// of the standard include directory that holds them
+    #[serde(default)]
+    pub config_files: BTreeMap<String, String>,
 }
 fn xdg_default() -> String {
     "xdg".into()
@@ -237,6 +242,7 @@ pub enum Reference {
 fn env_for(sc: &Scenario, xdg: &Path, ctl: &Path) -> (Option<PathBuf>, Option<PathBuf>) {
     match sc.envmode.as_str() {
         "home" => (None, Some(ctl.join("home"))),
+        "home-extra" => (None, Some(ctl.join("home2"))),
         "none" => (None, None),
         _ => (Some(xdg.to_path_buf()), Some(ctl.join("nohome"))),
     }
@@ -323,6 +329,15 @@ impl Env {
         // a home directory whose .config holds the same standard include directory
         std::fs::create_dir_all(ctl.join("home/.config")).map_err(|e| e.to_string())?;
         let _ = std::os::unix::fs::symlink(xdg.join("avra-rs"), ctl.join("home/.config/avra-rs"));
+        // and a home directory with a private standard include directory: every shipped file
+        // (as a symbolic link) plus whatever a scenario puts there
+        let inc2 = ctl.join("home2/.config/avra-rs/includes");
+        std::fs::create_dir_all(&inc2).map_err(|e| e.to_string())?;
+        if let Ok(rd) = std::fs::read_dir(xdg.join("avra-rs/includes")) {
+            for e in rd.flatten() {
+                let _ = std::os::unix::fs::symlink(e.path(), inc2.join(e.file_name()));
+            }
+        }
         Ok(Env { scratch, root, ctl, bin, preload, xdg })
     }
     fn clear_root(&self) {
@@ -342,9 +357,27 @@ pub struct RunOut {
     pub after: Snapshot,
 }
 
+/// The scenario's own files in the private standard include directory (everything that is not a
+/// link to a shipped file is from an earlier scenario and goes first).
+fn materialise_config(env_ctl: &Path, sc: &Scenario) -> Result<(), String> {
+    let inc2 = env_ctl.join("home2/.config/avra-rs/includes");
+    if let Ok(rd) = std::fs::read_dir(&inc2) {
+        for e in rd.flatten() {
+            if !e.file_type().map(|t| t.is_symlink()).unwrap_or(false) {
+                let _ = std::fs::remove_file(e.path());
+            }
+        }
+    }
+    for (n, t) in &sc.config_files {
+        std::fs::write(inc2.join(pb(n)), t).map_err(|e| format!("write config file {}: {}", n, e))?;
+    }
+    Ok(())
+}
+
 pub fn execute(env: &Env, sc: &Scenario, budget: u64) -> Result<RunOut, String> {
     env.clear_root();
     materialise(sc, &env.root)?;
+    materialise_config(&env.ctl, sc)?;
     let before = snapshot(&env.root);
     let root_s = env.root.to_string_lossy().into_owned();
     // trace pipe
@@ -908,6 +941,7 @@ pub fn scenario_shape(tier: &str, base_seed: u64, g: u64) -> Scenario {
         flip: None,
         envmode: "xdg".into(),
         symlinks: BTreeMap::new(),
+        config_files: BTreeMap::new(),
     };
     // ---- the source --------------------------------------------------------------------------
     let stem = STEMS[r.usize(STEMS.len())].to_string();
@@ -938,14 +972,26 @@ pub fn scenario_shape(tier: &str, base_seed: u64, g: u64) -> Scenario {
             }
         }
     };
-    let classes = ["code", "code", "code+eeprom", "code+eeprom", "eeprom-only", "empty", "comments", "fail", "fail", "missing", "part-file", "part-file", "shadowed-part-file", "patterned-data", "no-ram-device", "local-include", "large", "large", "gen-any", "not-utf8", "source-is-directory", "no-source-option", "unknown-option"];
+    let classes = ["code", "code", "code+eeprom", "code+eeprom", "eeprom-only", "empty", "comments", "fail", "fail", "missing", "part-file", "part-file", "shadowed-part-file", "patterned-data", "no-ram-device", "local-include", "large", "large", "gen-any", "not-utf8", "source-is-directory", "no-source-option", "unknown-option", "in-standard-includes"];
     let mut class = classes[r.usize(classes.len())].to_string();
+    if class == "in-standard-includes" && !(form == "bare" && !has_raw(stem)) {
+        class = "code+eeprom".into(); // only a bare, plain name can be looked up there
+    }
     if tier == "thorough" && r.chance(1, 60) {
         class = "huge".into();
     }
     let text: Option<String> = match class.as_str() {
         "code" => Some(format!("{}\n    ldi r16, {}\n    nop\n", gen_program(&mut r, None, "c"), r.below(256))),
         "code+eeprom" => Some(format!("{}.eseg\nee_final: .db {}, {}, \"tail\"\n.cseg\n    ret\n", gen_program(&mut r, None, "c"), r.below(256), r.below(256))),
+        // the source does not exist as spelled; a file of that name in the standard include
+        // directory is what the library builds (it looks the main file up like any include), so
+        // that is what the tool writes - next to the path as given
+        "in-standard-includes" => {
+            let fk = if r.chance(1, 4) { Some("error-directive") } else { None };
+            let t = format!("{}.eseg\n.db {}, 9\n.cseg\n    ret\n", gen_program(&mut r, fk, "s"), r.below(256));
+            sc.config_files.insert(fname.clone(), t);
+            None
+        }
         "eeprom-only" => Some(format!("; nothing for the flash\n.eseg\n.db {}, 2, 3\n.dw {}\n", r.below(256), r.below(60000))),
         "empty" => Some(String::new()),
         "comments" => Some("; only a comment\n\n   // and another\n".to_string()),
@@ -1058,6 +1104,9 @@ pub fn scenario_shape(tier: &str, base_seed: u64, g: u64) -> Scenario {
         1 if class != "part-file" => "none".into(),
         _ => "xdg".into(),
     };
+    if class == "in-standard-includes" {
+        sc.envmode = "home-extra".into();
+    }
     if !cwd.is_empty() {
         sc.dirs.push(cwd.clone());
     }
@@ -1346,6 +1395,7 @@ fn account(acc: &mut Acc, sc: &Scenario, out: &RunOut, reference: &Reference, ro
     stats.probe("both_o_and_e_given", parsed.output.is_some() && parsed.eeprom.is_some());
     stats.probe("o_given_e_defaulted_with_eeprom_data", parsed.output.is_some() && parsed.eeprom.is_none() && elen > 0);
     stats.probe("source_in_subdirectory_with_other_cwd", !sc.cwd.is_empty());
+    stats.probe("source_found_only_in_the_standard_include_directory", sc.source_class == "in-standard-includes" && matches!(reference, Reference::Built { .. }));
     stats.probe("source_name_that_is_not_utf8", parsed.source.as_ref().map(|o| has_raw(crate::incmodel::basename(o))).unwrap_or(false));
     stats.probe("directory_or_output_names_that_are_not_utf8", sc.argv.iter().any(|a| has_raw(a)) || has_raw(&sc.cwd));
     stats.probe("explicit_output_name_that_is_not_utf8", parsed.output.as_ref().map(|o| has_raw(crate::incmodel::basename(o))).unwrap_or(false) || parsed.eeprom.as_ref().map(|o| has_raw(crate::incmodel::basename(o))).unwrap_or(false));
@@ -1433,7 +1483,7 @@ pub fn worker(cfg: &WorkerCfg, emit: &mut dyn FnMut(Violation)) -> Stats {
         acc.stats.last_seed = Some(seed);
         // reference needs the files on disk
         env.clear_root();
-        if let Err(e) = materialise(&sc, &env.root) {
+        if let Err(e) = materialise(&sc, &env.root).and_then(|_| materialise_config(&env.ctl, &sc)) {
             acc.stats.harness_errors.push(e);
             break;
         }
@@ -1557,6 +1607,7 @@ pub fn replay(scv: &Value) -> Result<Option<Violation>, String> {
     let env = Env::new("cli-w99")?;
     env.clear_root();
     materialise(&sc, &env.root)?;
+    materialise_config(&env.ctl, &sc)?;
     let reference = reference(&env.root, &sc, &env.xdg, &env.ctl);
     let mut p = sc.clone();
     p.rules.retain(|r| r.kind == "full-device");
